@@ -2,7 +2,7 @@
    History report attributes every matching commit to the right build per branch
    (model of ak/ghist.py for a single repository, coq/C06/Model.v; statement in coq/C06/Spec.v). *)
 From Coq Require Import ZArith List Bool Sorting.Sorted Sorting.Permutation.
-From AK Require Import Common.Err gen.C06_Consts C06.Model C06.Lemmas C06.Inv C06.Spec C06.Inv2.
+From AK Require Import Common.Err gen.C06_Consts C06.Model C06.Lemmas C06.Inv C06.Spec C06.Inv2 C06.Inv3 C06.Inv4 C06.Attr C06.Window.
 Import ListNotations.
 
 (* ------------------------------------------------------------------ *)
@@ -149,14 +149,154 @@ Proof.
 Qed.
 Print Assumptions not_merged_char_refuted.
 
+(* the report (RGraph.branches) is the list of all branches that were read, reversed, without the
+   branches that have nothing to show *)
+Theorem report_is_all_branches : forall h l,
+  report h = Ok l -> l = filter (fun b => nonempty (obr_builds b)) (rev (all_branches h)).
+Proof. intros h l. unfold report. destruct (s_hang _); [discriminate|]. intros [= <-]. reflexivity. Qed.
+Print Assumptions report_is_all_branches.
+
 (* ------------------------------------------------------------------ *)
-(* the full attribution statement (NOT proved for general DAG histories; see c06.notes.md):
-   on an acyclic history inside the window in which no branch head lies in the history of a
-   lower-sorted branch (the trigger of the open finding), the report satisfies the statement *)
+(* the property at full strength: for every acyclic history inside the 30-day window the report
+   satisfies clauses (A)-(D) for every branch.  It is FALSE for the code as it stands (the open
+   finding), see [attribution_refuted]; [attribution_guarded] and [property_iff] say exactly how far
+   it holds. *)
+Definition attribution_statement : Prop :=
+  forall h, acyclic h -> heads_exist h -> in_window h -> property_holds h.
+
+Theorem attribution_refuted : ~ attribution_statement.
+Proof.
+  intros H. specialize (H witness).
+  assert (acyclic witness) as Ha by (apply acyclicb_spec; vm_compute; reflexivity).
+  destruct H as (l & _ & Hok).
+  - exact Ha.
+  - apply heads_existb_spec. vm_compute. reflexivity.
+  - apply in_windowb_spec. vm_compute. reflexivity.
+  - apply (report_okb_spec witness _ Ha) in Hok. vm_compute in Hok. discriminate.
+Qed.
+Print Assumptions attribution_refuted.
+
+(* no branch head lies inside (or coincides with the head of) a lower-sorted branch *)
 Definition heads_apart (h : history) : Prop :=
   forall l1 br l2, all_branches h = l1 ++ br :: l2 ->
     ~ in_lower h (map obr_head l1) (obr_head br).
 
-Definition attribution_statement : Prop :=
-  forall h, acyclic h -> heads_exist h -> in_window h -> heads_apart h -> property_holds h.
+(* ATTRIBUTION, guarded by exactly the trigger of the open finding: on every acyclic history (any
+   DAG: merges, several roots, tags on merges, parallel tagged sub-branches, any commit times) in
+   which no branch head lies inside a lower-sorted branch, the report is produced and satisfies the
+   full statement -- every listed commit matches and stands under a build (tagged commit or head,
+   outside the lower-sorted branches, head labelled 'not built') of the branch that contains it and
+   below which no other build of the branch contains it; every matching commit reachable from the
+   head is listed exactly once and never under 'not merged'; 'not merged' lists exactly once exactly
+   the matching commits of the lower-sorted branches that the head does not reach. *)
+Theorem attribution_guarded : forall h, acyclic h -> heads_exist h -> heads_apart h -> property_holds h.
+Proof. exact attribution_l. Qed.
+Print Assumptions attribution_guarded.
 
+(* the statement holds for a history IF AND ONLY IF no branch that has a matching commit in its
+   history has its head inside a lower-sorted branch: the open finding is the only way to fail *)
+Theorem property_iff : forall h, acyclic h -> heads_exist h ->
+  (property_holds h <->
+   forall l1 br l2 c, all_branches h = l1 ++ br :: l2 -> in_lower h (map obr_head l1) (obr_head br) ->
+                      matches h c = true -> reach h (obr_head br) c -> False).
+Proof. exact property_iff_l. Qed.
+Print Assumptions property_iff.
+
+(* what holds for EVERY acyclic history: the traversals never run out of fuel and every branch
+   satisfies Attr.branch_char = clauses (A), (D) unchanged, (B) without "never under 'not merged'"
+   for a head inside a lower-sorted branch, (C) with the exact content of 'not merged' *)
+Theorem report_characterised : forall h, acyclic h -> heads_exist h ->
+  (exists l, report h = Ok l) /\
+  forall l1 br l2, all_branches h = l1 ++ br :: l2 ->
+    let lower := map obr_head l1 in
+    let head := obr_head br in
+    let builds := obr_builds br in
+    partA h lower head builds /\
+    (forall c, matches h c = true -> reach h head c ->
+       count_occ Nat.eq_dec (normal_listed builds) c <= 1 /\
+       ((exists b, is_build_of h lower head b /\ reach h b c) -> count_occ Nat.eq_dec (normal_listed builds) c = 1) /\
+       (~ in_lower h lower head -> ~ In c (nm_listed builds))) /\
+    ((forall c, In c (nm_listed builds) <->
+                matches h c = true /\ in_lower h lower c /\ (~ reach h head c \/ in_lower h lower head)) /\
+     NoDup (nm_listed builds)) /\
+    partD h head builds.
+Proof.
+  intros h Ha He. destruct (report_char_all h Ha He) as (Hl & Hc). split; [exact Hl|].
+  intros l1 br l2 E. exact (report_char_nth h (all_branches h) [] l1 br l2 Hc E).
+Qed.
+Print Assumptions report_characterised.
+
+(* 'not merged', branch head outside the lower-sorted branches: exactly the matching commits of
+   lower-sorted branches that are not reachable from this head, each once *)
+Theorem not_merged_char_guarded : forall h l1 br l2, acyclic h -> heads_exist h ->
+  all_branches h = l1 ++ br :: l2 -> ~ in_lower h (map obr_head l1) (obr_head br) ->
+  partC h (map obr_head l1) (obr_head br) (obr_builds br).
+Proof.
+  intros h l1 br l2 Ha He E Hn. destruct (report_char_all h Ha He) as (_ & Hc).
+  pose proof (report_char_nth h (all_branches h) [] l1 br l2 Hc E) as Hb. cbn [app] in Hb.
+  destruct (branch_char_ok h _ _ _ Hn Hb) as (_ & _ & C & _). exact C.
+Qed.
+Print Assumptions not_merged_char_guarded.
+
+(* 'not merged', branch head inside a lower-sorted branch (the open finding, exactly): the branch
+   has no build of its own and 'not merged' lists every matching commit of the lower-sorted
+   branches, reachable from the head or not *)
+Theorem not_merged_char_inside : forall h l1 br l2, acyclic h -> heads_exist h ->
+  all_branches h = l1 ++ br :: l2 -> in_lower h (map obr_head l1) (obr_head br) ->
+  normal_listed (obr_builds br) = [] /\
+  forall c, In c (nm_listed (obr_builds br)) <-> matches h c = true /\ in_lower h (map obr_head l1) c.
+Proof.
+  intros h l1 br l2 Ha He E Hl. destruct (report_char_all h Ha He) as (_ & Hc).
+  pose proof (report_char_nth h (all_branches h) [] l1 br l2 Hc E) as (A & _ & (C & _) & _). cbn [app] in *. split.
+  - destruct (normal_listed (obr_builds br)) as [|c r] eqn:En; [reflexivity|exfalso].
+    assert (In c (normal_listed (obr_builds br))) as Hin by (rewrite En; left; reflexivity).
+    unfold normal_listed in Hin. apply in_flat_map in Hin as (ob & Hob & Hc0).
+    destruct (normal ob) eqn:Hn; [|destruct Hc0].
+    destruct (A ob c Hob Hn Hc0) as (_ & b & _ & (Rb & _ & Nb) & _). apply Nb.
+    destruct Hl as (hd & Hin & R). exists hd. split; [exact Hin|eapply reach_trans; eassumption].
+  - intros c. rewrite C. tauto.
+Qed.
+Print Assumptions not_merged_char_inside.
+
+(* inside the 30-day window no branch is skipped as obsolete: the branches read -- the "lower-sorted
+   branches" of the statement -- are all release / master branches of the remote, in sorted order *)
+Theorem window_reads_all_branches : forall h, acyclic h -> heads_exist h -> in_window h ->
+  map (fun b => (obr_name b, obr_head b)) (all_branches h) = map branch_id (sorted_branches (h_remote h) (h_refs h)).
+Proof. exact window_reads_all. Qed.
+Print Assumptions window_reads_all_branches.
+
+(* the hypotheses of [attribution_guarded] on a non-trivial history: a merge of two sub-branches one
+   of which is tagged, three branches (release/1 -> 5, release/2 -> 7, master -> 8), an untagged head;
+   release/2 lists the commits it shares with release/1 under its own first build, master lists the
+   matching commits 6 and 3 it does not contain under 'not merged' *)
+Definition example : history :=
+  mkHistory
+    [mkCommit [] [105;110;105;116]%Z 1700000000%Z [];
+     mkCommit [0] [66;85;71;45;49;32;97]%Z 1700000100%Z [];
+     mkCommit [1] [120]%Z 1700000200%Z [(1, 0, 5, 5)%Z];
+     mkCommit [1] [66;85;71;45;49;32;98]%Z 1700000300%Z [];
+     mkCommit [2; 3] [109]%Z 1700000400%Z [];
+     mkCommit [4] [121]%Z 1700000500%Z [(1, 0, 9, 9)%Z];
+     mkCommit [4] [66;85;71;45;49;32;99]%Z 1700000600%Z [];
+     mkCommit [6] [122]%Z 1700000700%Z [];
+     mkCommit [2] [66;85;71;45;49;32;100]%Z 1700000800%Z [(3, 7, 6, 6)%Z]]
+    [111;114;105;103;105;110]%Z
+    [([111;114;105;103;105;110;47;109;97;115;116;101;114]%Z, 8);
+     ([111;114;105;103;105;110;47;114;101;108;101;97;115;101;47;50]%Z, 7);
+     ([111;114;105;103;105;110;47;114;101;108;101;97;115;101;47;49]%Z, 5)]
+    [66;85;71]%Z.
+
+Example attribution_example :
+  acyclic example /\ heads_exist example /\ in_window example /\ heads_apart example /\
+  map (fun br => (obr_head br, map (fun ob => (ob_type ob, ob_commit ob, ob_listed ob)) (obr_builds br))) (all_branches example) =
+    [(5, [(NORMAL, Some 5, [3]); (NORMAL, Some 2, [1])]);
+     (7, [(NORMAL, Some 7, [6; 3; 1])]);
+     (8, [(FAKE_NOT_MERGED, None, [6; 3]); (NORMAL, Some 8, [8; 1])])].
+Proof.
+  assert (acyclic example) as Ha by (apply acyclicb_spec; vm_compute; reflexivity).
+  split; [exact Ha|]. split; [apply heads_existb_spec; vm_compute; reflexivity|].
+  split; [apply in_windowb_spec; vm_compute; reflexivity|]. split; [|vm_compute; reflexivity].
+  unfold heads_apart. intros l1 br l2 E. apply (apartb_spec example Ha (all_branches example) [] ) with (l2 := l2); [|exact E].
+  vm_compute. reflexivity.
+Qed.
+Print Assumptions attribution_example.
